@@ -590,16 +590,26 @@ pub fn sd_eval(prop: &'static str, case: &SdCase) -> CaseOutcome {
 }
 
 pub fn sd_case(prop: &'static str, seed: u64) -> CaseOutcome {
+    if (prop == "C12" || prop == "C14") && seed % 8 == 0 {
+        return fullstack_eval(&fullstack_gen(seed));
+    }
     let c = gen_case(prop, seed);
     sd_eval(prop, &c)
 }
 
 pub fn sd_replay(prop: &'static str, v: &serde_json::Value) -> Result<CaseOutcome, String> {
+    if let Some(fs) = v.get("full_stack") {
+        let c: FullStackCase = serde_json::from_value(fs.clone()).map_err(|e| e.to_string())?;
+        return Ok(fullstack_eval(&c));
+    }
     let c: SdCase = serde_json::from_value(v.clone()).map_err(|e| e.to_string())?;
     Ok(sd_eval(prop, &c))
 }
 
 pub fn sd_minimise(prop: &'static str, v: &serde_json::Value, sig: &str) -> serde_json::Value {
+    if v.get("full_stack").is_some() {
+        return v.clone();
+    }
     let mut best: SdCase = match serde_json::from_value(v.clone()) {
         Ok(c) => c,
         Err(_) => return v.clone(),
@@ -623,4 +633,162 @@ pub fn sd_minimise(prop: &'static str, v: &serde_json::Value, sig: &str) -> serd
         }
     }
     serde_json::to_value(&best).unwrap()
+}
+
+// ---------------------------------------------------------------------------------------------
+// Full stack (C12): one file-system history on VolumeManager<SimDisk> and on
+// VolumeManager<SdCard<SimSpi, SimDelay>> over a card preloaded with the same formatted image.
+
+use crate::clock::SimClock;
+use crate::disk::{DiskError, SimDisk};
+use crate::fs::make_fs;
+use crate::ops::Scenario;
+
+pub struct SdAsDisk(pub SdCard<SimSpi, SimDelay>);
+
+impl BlockDevice for SdAsDisk {
+    type Error = DiskError;
+    fn read(&self, blocks: &mut [Block], start: BlockIdx) -> Result<(), DiskError> {
+        self.0.read(blocks, start).map_err(|_| DiskError::Injected)
+    }
+    fn write(&self, blocks: &[Block], start: BlockIdx) -> Result<(), DiskError> {
+        self.0.write(blocks, start).map_err(|_| DiskError::Injected)
+    }
+    fn num_blocks(&self) -> Result<embedded_sdmmc::BlockCount, DiskError> {
+        self.0.num_blocks().map_err(|_| DiskError::Injected)
+    }
+}
+
+#[derive(Serialize, Deserialize, Clone, Debug)]
+pub struct FullStackCase {
+    pub scenario: Scenario,
+    pub card: CardCfg,
+    pub use_crc: bool,
+}
+
+pub fn fullstack_gen(seed: u64) -> FullStackCase {
+    // a history generated (and fully judged) on SimDisk first; its operation list is then replayed blind
+    let mut rng = Rng::new(seed);
+    let mut p = crate::gen::profile_for("small");
+    p.max_vols = 1;
+    p.max_len = 18;
+    let mut header = crate::runner::gen_header(&mut rng, &p);
+    header.dev.vols.truncate(1);
+    header.dev.foreign_slot = None;
+    let r = crate::runner::run(&header, crate::runner::Source::Generate { rng: rng.clone(), profile: p }, false, false);
+    let sc = r.scenario;
+    let (img, _) = crate::mkfs::build_device(&sc.dev);
+    let blocks = img.num_blocks as u64;
+    let mut card = gen_card(&mut rng, false);
+    // make the card large enough for the image
+    match card.kind {
+        CardKind::V2Hc => card.c_size = ((blocks + 1023) / 1024) as u32 + rng.below(3) as u32,
+        _ => {
+            card.read_bl_len = 9;
+            card.c_size_mult = 7;
+            card.c_size = (((blocks + 511) / 512) as u32 + 1).min(4095);
+            if card.capacity_blocks() < blocks {
+                card.kind = CardKind::V2Hc;
+                card.c_size = ((blocks + 1023) / 1024) as u32;
+            }
+        }
+    }
+    FullStackCase { scenario: sc, card, use_crc: rng.chance(1, 2) }
+}
+
+pub fn fullstack_eval(case: &FullStackCase) -> CaseOutcome {
+    let mut out = CaseOutcome::default();
+    out.case = serde_json::json!({ "full_stack": case });
+    out.evaluations = 1;
+    let mut probes = Probes::default();
+    let mut viols: Vec<Violation> = Vec::new();
+    let sc = &case.scenario;
+    let nslots = sc.limits.0.max(sc.limits.1).max(sc.limits.2) + 2;
+    // (a) reference: SimDisk
+    let (img_a, _) = crate::mkfs::build_device(&sc.dev);
+    let disk = SimDisk::new(img_a);
+    let clock_a = SimClock::new(sc.clock0);
+    let res_a = {
+        let fs = make_fs(sc.limits, &disk, &clock_a, sc.id_offset);
+        std::panic::catch_unwind(std::panic::AssertUnwindSafe(|| crate::blind::blind_exec(&*fs, &sc.ops, &clock_a, nslots)))
+    };
+    // (b) the same history through the SD driver
+    let (img_b, _) = crate::mkfs::build_device(&sc.dev);
+    let sdcase = SdCase { card: case.card.clone(), use_crc: case.use_crc, acquire_retries: 50, ops: vec![], bus_fail_at: None };
+    let rg = rig(&sdcase);
+    rg.card.borrow_mut().base = Some(img_b);
+    let Rig { card, bus, ns: _ns, drv } = rg;
+    bus.borrow_mut().byte_cap = 2_000_000_000;
+    let clock_b = SimClock::new(sc.clock0);
+    let res_b = {
+        let fs = make_fs(sc.limits, SdAsDisk(drv), &clock_b, sc.id_offset);
+        std::panic::catch_unwind(std::panic::AssertUnwindSafe(|| crate::blind::blind_exec(&*fs, &sc.ops, &clock_b, nslots)))
+    };
+    let mut h = 0xcbf29ce484222325u64;
+    match (res_a, res_b) {
+        (Ok(a), Ok(b)) => {
+            for s in &a {
+                crate::rng::fnv_add(&mut h, s.as_bytes());
+            }
+            if a != b {
+                let i = a.iter().zip(b.iter()).position(|(x, y)| x != y).unwrap_or(a.len().min(b.len()));
+                viols.push(Violation { prop: "C12", oracle: "full-stack-result-differs".into(), disc: a.get(i).map(|s| s.split(':').next().unwrap_or("").to_string()).unwrap_or_default(), detail: format!("call {}: on SimDisk {:?}, through the SD driver {:?}", i, a.get(i), b.get(i)), op_idx: i });
+            }
+            // medium: every block either side touched must be equal
+            let c = card.borrow();
+            let st = disk.st.borrow();
+            let mut keys: std::collections::BTreeSet<u64> = c.mem.keys().copied().collect();
+            for e in st.log.iter().filter(|e| e.write && e.applied) {
+                keys.insert(e.block as u64);
+            }
+            for k in keys {
+                if c.block(k) != st.image.get(k as u32) {
+                    viols.push(Violation { prop: "C12", oracle: "full-stack-medium-differs".into(), disc: format!("{:?}", case.card.kind), detail: format!("block {} on the card differs from the reference device after the same history", k), op_idx: 0 });
+                    break;
+                }
+            }
+            probes.hit("full_stack_history");
+            probes.add("full_stack_blocks_written", c.mem.len() as u64);
+            for e in &c.protocol_errors {
+                viols.push(Violation { prop: "C14", oracle: "illegal-conversation".into(), disc: norm(e), detail: e.clone(), op_idx: 0 });
+            }
+            out.dev_calls = c.bytes;
+            out.nontrivial = c.mem.len() > 0;
+        }
+        (ra, rb) => {
+            viols.push(Violation { prop: "C12", oracle: "full-stack-panic".into(), disc: String::new(), detail: format!("reference panicked: {}, driver side panicked: {} at {}", ra.is_err(), rb.is_err(), crate::last_panic_location()), op_idx: 0 });
+        }
+    }
+    out.ev_hash = h;
+    out.probes = probes;
+    out.viols = viols;
+    out.api_calls = sc.ops.len() as u64;
+    out
+}
+
+
+// ---------------------------------------------------------------------------------------------
+// Thorough tier of C13: every single-bit position of a data block + CRC (4112 positions), for the
+// three card kinds, in a single-block read and in the middle block of a three-block read.
+pub const ENUM_CASES: u64 = 4112 * 6;
+
+pub fn enumerated_flip_case(i: u64) -> SdCase {
+    let bit = (i % 4112) as u16;
+    let variant = i / 4112;
+    let kind = [CardKind::V1Sc, CardKind::V2Sc, CardKind::V2Hc][(variant % 3) as usize];
+    let multi = variant / 3 == 1;
+    let card = CardCfg {
+        kind,
+        c_size: if kind == CardKind::V2Hc { 10 } else { 100 },
+        c_size_mult: 3,
+        read_bl_len: 9,
+        acmd41_rounds: 2,
+        cmd0_bad_answers: 0,
+        timing_seed: i,
+        slow: false,
+        gap_after_stop: i % 2 == 0,
+        adversary: Adversary::FlipBits { block_no: if multi { 1 } else { 0 }, bits: vec![bit] },
+    };
+    let ops = if multi { vec![SdOp::Read { block: 5 + i % 50, n: 3 }, SdOp::Read { block: 5 + i % 50, n: 3 }, SdOp::Write { block: 2, n: 2, seed: i as u32 }] } else { vec![SdOp::Read { block: i % 200, n: 1 }, SdOp::Read { block: i % 200, n: 1 }] };
+    SdCase { card, use_crc: true, acquire_retries: 50, ops, bus_fail_at: None }
 }
